@@ -290,3 +290,25 @@ Theorem C02_recorded_panic_is_never_lost : forall P fuel x,
   (forall p mw E c E' o', lower_pattern tops fuel P p mw E (Some x) = Ok ((c, E'), o') -> o' = Some x).
 Proof. exact tsem_sticky_all. Qed.
 Print Assumptions C02_recorded_panic_is_never_lost.
+
+(* ------------------------------------------------------------------ the property itself, at the
+   SOURCE level, for every program in the proved fragments (Compile/Fragment.v covered_program:
+   about 80% of the generated test programs, reported per run): the bit-level semantics records a
+   panic IF AND ONLY IF Sem.run_main panics, and then exactly Sem.v's reason and location - the
+   first failing operation in evaluation order, by the definition of Sem.v (strict, left to right,
+   branches not taken / arms not selected / short-circuited operands not evaluated).  With the
+   circuit theorems of C01 the decoded output of the emitted circuit is that panic, on every
+   input that is a canonical encoding. *)
+From GV Require Import Compile.Fragment Compile.TSemSemFull.
+
+Theorem C02_covered_programs_panic_iff_the_source_semantics_panics :
+  forall P fuel fw fT args o outs,
+  covered_program fw P = true -> canonical_main_args P args = true ->
+  tsem_program fT P args = Ok (o, outs) ->
+  match Sem.run_main fuel P args with
+  | Sem.RunOk bits _ => o = None /\ outs = bits
+  | Sem.RunPanic r m => o = Some (PanicRec.preason_num (TSemSemExpr.pr r), PanicSem.ploc32 (ploc_of m))
+  | Sem.RunStuck _ | Sem.RunNoFuel => True
+  end.
+Proof. exact covered_program_sound. Qed.
+Print Assumptions C02_covered_programs_panic_iff_the_source_semantics_panics.
